@@ -15,9 +15,18 @@
    a commit step is enabled only while no read-only transaction is open. Writes that do not
    go through a transaction (Engine.Put/Delete/ApplyBatch) take no transaction lock.
 
-   An iterator is created in one shared section of Manager.mu (it captures the memtables, a
-   snapshot sequence number for the mutable one, and the SSTable list) and is READ LATER,
-   key by key, without any lock: [LIterRead] steps interleave with writes. *)
+   SCANS. An iterator is created in one shared section of Manager.mu (it captures the
+   memtables, a snapshot sequence number for the mutable one, and the SSTable list) and is read
+   afterwards without any lock. Which scans are observers of C03:
+   - a scan inside a read-only transaction, against transactional writers: no commit can run
+     while the transaction is open, so the scan is one step [LRoScan] (a sound abstraction only
+     while no write that bypasses the transaction lock is made during the transaction: the
+     guard of the theorem that mentions it);
+   - a "later" scan, made while no write is in flight: it is [LRead] of its keys;
+   - a scan that is running WHILE a batch is inserted is not an observer of C03 (it is
+     constrained by C05 only). The faithful iterator steps [LIterNew]/[LIterRead] are kept to
+     record, as a machine-checked observation, that the memtable snapshot does not isolate
+     such a scan from later writes (TxnAtomicProofs.iter_sees_later_write). *)
 From KV Require Export Spec Engine.
 Open Scope N_scope.
 
@@ -33,6 +42,8 @@ Inductive label :=
                                       a single Get is the case of one key *)
 | LRoBegin (r : nat)               (* read-only transaction r takes txLock shared *)
 | LRoGet (r : nat) (k : bytes) (v : option bytes)
+| LRoScan (r : nat) (ks : list bytes) (vs : list (option bytes))
+                                   (* a scan inside read-only transaction r *)
 | LRoEnd (r : nat)
 | LIterNew (i : nat)               (* Manager.GetIterator *)
 | LIterRead (i : nat) (k : bytes) (v : option bytes).
@@ -119,6 +130,8 @@ Definition cstep (s : cst) (l : label) : option cst :=
       if mem_nat r (ro_open s) then None else Some (mkC (eng s) (r :: ro_open s) (iters s))
   | LRoGet r k v =>
       if mem_nat r (ro_open s) && obeq v (get (eng s) k) then Some s else None
+  | LRoScan r ks vs =>
+      if mem_nat r (ro_open s) && obs_eqb vs (map (get (eng s)) ks) then Some s else None
   | LRoEnd r =>
       if mem_nat r (ro_open s) then Some (mkC (eng s) (remove_nat r (ro_open s)) (iters s)) else None
   | LIterNew i => Some (mkC (eng s) (ro_open s) ((i, iter_new (eng s)) :: iters s))
@@ -173,8 +186,10 @@ Fixpoint twrites (s : cst) (tr : list label) : list hentry :=
    MSection: all inside one shared section (one Get, one iterator, one consistent scan);
    MRoTx:    reads of one read-only transaction — between two of them only writes that take
              no transaction lock can be acknowledged;
-   MFree:    separate reads of one client, in program order *)
-Inductive omode := MSection | MRoTx | MFree.
+   MFree:    separate reads of one client, in program order;
+   MEach:    every read on its own (a scan that races writers: each key is as after SOME prefix
+             inside the window — everything acknowledged before the scan began is there) *)
+Inductive omode := MSection | MRoTx | MFree | MEach.
 
 Definition read := (bytes * option bytes)%type.
 
@@ -193,6 +208,7 @@ Definition reach (H : list hentry) (md : omode) (n m : nat) : bool :=
   | MSection => Nat.eqb n m
   | MFree => Nat.leb n m
   | MRoTx => Nat.leb n m && forallb is_direct (firstn (m - n) (skipn n H))
+  | MEach => true
   end.
 
 Definition cand_range (lo hi : nat) : list nat := seq lo (S hi - lo).
